@@ -4,7 +4,7 @@ from engine import atoms
 from engine.rulelib import fnview
 from engine.cfg import render, strip_ref, peel, subexprs
 
-CRATES = ["lightning_signer", "vls_persist"]
+CRATES = ["lightning_signer", "vls_persist", "vls_protocol_signer"]
 LS = "lightning_signer::"
 CH = LS + "channel::Channel"
 VAL = LS + "policy::validator::Validator"
@@ -24,7 +24,7 @@ CLAIM = {
             "the builders pass each value to the LDK CommitmentTransaction constructor parameter of the matching role "
             "(counterparty tx: broadcaster = counterparty; holder tx: broadcaster = holder), with "
             "INITIAL_COMMITMENT_NUMBER - n, and make_channel_parameters / htlcs_info2_to_oic fill same-named fields "
-            "(offered = true only for the offered list); (R4.5) both entry points use the same builder. Does not "
+            "(offered = true only for the offered list); (R4.5) both entry points use the same builder, and the protocol handler converts wire HTLCs to the validated content by truncating division (amount_msat / 1000) identically on both sides. Does not "
             "decide that decoder, recomposer and LDK agree on every byte string, nor equality of the two signatures.",
     "note": "LDK CommitmentTransaction / BuiltCommitmentTransaction semantics by name; parameter names of external "
             "functions read from crate metadata",
@@ -39,6 +39,7 @@ def run(ctx):
     r42(ctx)
     r43(ctx)
     r44(ctx)
+    r45(ctx)
 
 
 def _sign_sites(ctx, b):
@@ -433,3 +434,36 @@ def _named(fv, name):
             e = fv.local_expr(l)
             return e[2] if e[0] == "let" else e
     return None
+
+
+def r45(ctx):
+    ctx.rule("R4.5", "wire HTLC -> validated content: every HTLCInfo2 the protocol handler builds from a request carries "
+                     "amount_msat / 1000 (BOLT-3 truncation), the request's payment hash and expiry - the same on both sides")
+    p = ctx.prog
+    if not p.has_fn("vls_protocol_signer::handler::extract_htlcs"):
+        if "vls_protocol_signer" in {b.d.krate for b in p.bodies.values()}:
+            raise R.Broken("anchor missing: vls_protocol_signer::handler::extract_htlcs")
+        return
+    eb = p.fn("vls_protocol_signer::handler::extract_htlcs")
+    n = 0
+    shapes = set()
+    for cb in [eb] + p.closures_of(eb):
+        cv = fnview(ctx, cb, policy=False)
+        for bb, bi, si, st in R.constructions(p, LS + "tx::tx::HTLCInfo2"):
+            if bb is not cb:
+                continue
+            n += 1
+            vals = dict(zip(st.rv.a[3], st.rv.ops))
+            v = render(cv.expr(vals["value_sat"]))
+            ok = v.endswith(".amount / 1000)") and v.count("/") == 1 and "+" not in v and "-" not in v.replace("->", "")
+            ctx.ob("R4.5", ok, f"{eb.name}/{cb.name.rsplit('::', 1)[-1]}/value", f"HTLC value is `{v[:80]}` (BOLT-3: amount_msat / 1000, truncated): the "
+                   f"commitment that is rebuilt and signed differs from the BOLT-3 transaction of the supplied content",
+                   where=f"{cb.file}:{st.line}", sample=v[-30:])
+            h = render(cv.expr(vals["payment_hash"]))
+            e = render(cv.expr(vals["cltv_expiry"]))
+            ctx.ob("R4.5", "payment_hash" in h and ("ctlv_expiry" in e or "cltv_expiry" in e), f"{eb.name}/{cb.name.rsplit('::', 1)[-1]}/hash-expiry",
+                   f"HTLC hash `{h[:60]}` / expiry `{e[:60]}`", where=f"{cb.file}:{st.line}")
+            shapes.add((v.split(".")[-1], h.split(".")[-2:][0] if "." in h else h, e.split(".")[-1]))
+    ctx.floor("R4.5", "HTLCInfo2 literals in extract_htlcs", n, 2)
+    ctx.ob("R4.5", len(shapes) == 1, f"{eb.name}/sides-agree", f"offered and received HTLCs are converted differently: {sorted(shapes)}",
+           where=f"{eb.file}:{eb.line}", sample=sorted(shapes))
